@@ -3,7 +3,7 @@ CONSTANTS
   CRev = 54460
   SRev = 54460
   Behaviour = "late"
-  CancelAt = 99
+  CancelAt = 1
   Delay = 3
   Limit = 5
   AddendumRev = 54458
